@@ -56,7 +56,7 @@ pub fn run(ctx: &mut Ctx, _args: &Args) {
     ctx.rule = "graph cases: the object graph has >= 1 link and the plain topological (Kahn) order overflowed, \
                 i.e. the recorded stage trace is longer than [kahn] (shortest-distance / space assignment / \
                 isolation+duplication / PackingFailed paths ran); GPOS cases: the table exceeds 64 KiB in at \
-                least one lookup so that split_check or promote ran (gposdev: the output has more subtables than the input or an extension lookup). Digest = the abstract spec (sizes, links, \
+                least one lookup so that split_check or promote ran (gposdev: the output has more subtables than the input or an extension lookup; shared-subtable tables: at least one lookup reads back promoted). Typed-lookup graphs count as graph cases. Digest = the abstract spec (sizes, links, \
                 widths, positions, adjustments) resp. the GPOS recipe"
         .into();
     ctx.assumptions = vec![
